@@ -96,6 +96,13 @@ Theorem C09_glam_is_kron_partial : forall (a : ndarr) (b : list (list K)) (ncolb
   = dot (col (N.to_nat (nth dim idx 0%N)) b)
         (map (fun r => aget a (set_nth dim r idx)) (Nseq (nth dim (nd_ranges a) 0%N))).
 Proof. exact (slicemultiply_spec F). Qed.
+(* ... and it keeps the array well-formed (ranges updated as the code does, every index within its range), so the
+   per-axis statement applies again to the next axis *)
+Theorem C09_slicemultiply_wellformed : forall (a : @ndarr A) (b : list (list K)) (ncolb dim : nat),
+  (dim < length (nd_ranges a))%nat ->
+  nd_ranges (slicemultiply a b ncolb dim) = set_nth dim (N.of_nat ncolb) (nd_ranges a)
+  /\ valid_arr (slicemultiply a b ncolb dim).
+Proof. intros a b ncolb dim H. split; [reflexivity | apply slicemultiply_valid; exact H]. Qed.
 
 (* (4) listing order and zero-weight entries are irrelevant for the objective, the normal matrix and the right-hand
    side (as functions of the entry list; for the arrays of the GLAM path this rests on the unproved part of (3) and is
@@ -149,4 +156,5 @@ Print Assumptions C09_penalty_is_DtD.
 Print Assumptions C09_penalty_1d.
 Print Assumptions C09_penalty_is_normal_matrix.
 Print Assumptions C09_glam_is_kron_partial.
+Print Assumptions C09_slicemultiply_wellformed.
 Print Assumptions C09_zero_weight_and_order_irrelevant.
